@@ -368,6 +368,25 @@ func runC20(c *Ctx) {
 			c20Pair(c, b, a, wb, wa)
 		}
 	}
+	// address bits behind the prefix length are part of the RDATA too (the decoder keeps them): 10.0.0.0/8 and 10.1.2.3/8
+	// off the wire are different octets, hence not duplicates; likewise for IPv6 and for /0
+	for _, pc := range []struct {
+		fam  byte
+		plen byte
+		a, b []byte
+	}{{1, 8, []byte{10}, []byte{10, 1, 2, 3}}, {1, 24, []byte{192, 0, 2}, []byte{192, 0, 2, 77}}, {1, 0, []byte{}, []byte{1}}, {1, 17, []byte{10, 1, 128}, []byte{10, 1, 129}},
+		{2, 32, []byte{0x20, 1, 0xd, 0xb8}, []byte{0x20, 1, 0xd, 0xb8, 0, 0, 0, 1}}, {2, 7, []byte{0xfc}, []byte{0xfd}}} {
+		ra := append([]byte{0, pc.fam, pc.plen, byte(len(pc.a))}, pc.a...)
+		rb := append([]byte{0, pc.fam, pc.plen, byte(len(pc.b))}, pc.b...)
+		wa := assembleRR([][]byte{[]byte("apl")}, dns.TypeAPL, 1, 60, ra)
+		wb := assembleRR([][]byte{[]byte("apl")}, dns.TypeAPL, 1, 60, rb)
+		a, _, e1 := dns.UnpackRR(wa, 0)
+		b, _, e2 := dns.UnpackRR(wb, 0)
+		if e1 == nil && e2 == nil {
+			c20Pair(c, a, b, wa, wb)
+			c20Pair(c, b, a, wb, wa)
+		}
+	}
 	// the same record value more than once in the input (the same pointer, not a copy)
 	{
 		mk := func(n string, ttl uint32) dns.RR {
